@@ -246,13 +246,13 @@ Section Inv.
           rewrite Hpr. assert (In r (D ++ r :: q)) as Hin by (apply in_app_iff; right; now left).
           rewrite h1 in Hin. destruct Hin as [->|Hin]; auto.
           right. rewrite map_app, in_app_iff. auto.
-      - destruct h7. split; [now apply (NoDup_adelete N.eqb eqs)|now apply (NoDup_adelete_all N.eqb eqs)].
+      - destruct h7. split; [now apply (NoDup_adelete N.eqb)|now apply (NoDup_adelete_all N.eqb)].
     Qed.
 
     Lemma binv_bound D q bl pa rem : binv D q bl pa rem -> length D + length q <= S (length P0).
     Proof.
       intros [h1 h2 h3 h4 h5 h6 h7].
-      rewrite <- app_length, h1. cbn. apply le_n_S. rewrite <- (map_length b_id rem), <- (map_length fst P0).
+      rewrite <- app_length, h1. cbn. apply le_n_S. rewrite <- (map_length fst P0).
       apply NoDup_incl_length.
       - rewrite h1 in h3. now inversion h3.
       - intros x Hx. apply in_map_iff in Hx. destruct Hx as [b [<- Hb]].
@@ -274,4 +274,316 @@ Section Inv.
           * apply (IH (D ++ [r])); [now apply binv_step_none|]. rewrite app_length. cbn. lia.
     Qed.
   End Bfs.
+
+  (* ---- stored blocks, characterised through the parents map ---------------- *)
+  Lemma stored_kb p b : NoDup (map fst (blocks p)) ->
+    (In b (stored p) <-> exists k, In b (kb (blocks p) k)).
+  Proof.
+    intros ND. unfold stored, kb. rewrite in_flat_map. split.
+    - intros [[k ch] [Hin Hb]]. exists k. rewrite (In_alookup N.eqb eqs _ _ _ ND Hin). exact Hb.
+    - intros [k Hb]. destruct (lk k (blocks p)) as [ch|] eqn:E; [|destruct Hb].
+      exists (k, ch). split; [now apply (alookup_In N.eqb eqs)|exact Hb].
+  Qed.
+
+  Lemma stored_char p b : inv p ->
+    (In b (stored p) <-> lk (b_id b) (parents p) = Some (b_parent b) /\ b = the_blk (b_id b)).
+  Proof.
+    intros Hinv. rewrite stored_kb by apply (iD _ Hinv). split.
+    - intros [k Hb]. apply (kb_spec p Hinv) in Hb. destruct Hb as [Hl Hb]. split; auto.
+      destruct (iB _ Hinv _ _ Hl) as [Hp _]. rewrite Hb at 2. cbn. now rewrite Hp.
+    - intros [Hl Hb]. exists (b_parent b). apply (kb_spec p Hinv). auto.
+  Qed.
+
+  Lemma pf_descends S ph rem : parents_first ph rem -> (forall b, In b rem -> In b S) ->
+    forall b, In b rem -> descends S ph b.
+  Proof.
+    induction rem as [|x rem IH] using rev_ind; [intros _ _ b []|].
+    intros Hpf Hs.
+    assert (IH' : forall b, In b rem -> descends S ph b).
+    { apply IH.
+      - intros r1 b r2 E. apply (Hpf r1 b (r2 ++ [x])). rewrite E, <- app_assoc. reflexivity.
+      - intros b Hb. apply Hs. apply in_app_iff. auto. }
+    intros b Hb. apply in_app_iff in Hb. destruct Hb as [Hb|[<-|[]]]; auto.
+    destruct (Hpf rem x [] eq_refl) as [Hp|Hp].
+    - apply DChild; auto. apply Hs. apply in_app_iff. right. now left.
+    - apply in_map_iff in Hp. destruct Hp as [c [Hc Hin]].
+      apply (DStep S ph x c); auto. apply Hs. apply in_app_iff. right. now left.
+  Qed.
+
+  Lemma descends_child S ph b : descends S ph b -> exists c, In c S /\ b_parent c = ph.
+  Proof. induction 1; eauto. Qed.
+
+  Section Final.
+    Variables (p : pool) (ph : N) (bl : list (N * list (N * blk))) (pa : list (N * N)) (rem : list blk).
+    Hypothesis Hinv : inv p.
+    Hypothesis Hph : lk ph (parents p) = None.
+    Hypothesis F : binv p ph (ph :: map b_id rem) [] bl pa rem.
+
+    Local Notation D' := (ph :: map b_id rem).
+
+    Lemma fin_rem_iff b : In b rem <-> exists d, In d D' /\ In b (kb (blocks p) d).
+    Proof. rewrite (b2 _ _ _ _ _ _ _ F) at 1. apply in_flat_map. Qed.
+
+    Lemma fin_ids_in_D x : In x (map b_id rem) -> In x D'.
+    Proof. intros; right; auto. Qed.
+
+    Lemma fin_descends b : In b rem <-> descends (stored p) ph b.
+    Proof.
+      split.
+      - revert b. apply pf_descends; [apply (b6 _ _ _ _ _ _ _ F)|].
+        intros b Hb. apply fin_rem_iff in Hb. destruct Hb as [d [_ Hb]].
+        apply stored_kb; [apply (iD _ Hinv)|eauto].
+      - induction 1 as [b Hs Hp|b c Hs Hc IH Hp].
+        + apply fin_rem_iff. exists ph. split; [now left|].
+          apply (stored_char _ _ Hinv) in Hs. apply (kb_spec p Hinv). now rewrite <- Hp.
+        + apply fin_rem_iff. exists (b_id c). split; [right; now apply in_map|].
+          apply (stored_char _ _ Hinv) in Hs. apply (kb_spec p Hinv). now rewrite <- Hp.
+    Qed.
+
+    Lemma fin_nodup : NoDup rem.
+    Proof.
+      pose proof (b3 _ _ _ _ _ _ _ F) as H. rewrite app_nil_r in H. inversion H; subst.
+      eapply NoDup_map_inv; eauto.
+    Qed.
+
+    Lemma fin_kb k : kb bl k = if existsb (N.eqb k) D' then [] else kb (blocks p) k.
+    Proof. unfold kb. rewrite (b4 _ _ _ _ _ _ _ F). destruct (existsb (N.eqb k) D'); reflexivity. Qed.
+
+    Lemma fin_stored b :
+      In b (stored (mkPool bl pa (sremove N.eqb ph (leaders p)))) <-> In b (stored p) /\ ~ In b rem.
+    Proof.
+      rewrite stored_kb by apply (b7 _ _ _ _ _ _ _ F). cbn [blocks].
+      rewrite (stored_kb p) by apply (iD _ Hinv). split.
+      - intros [k Hb]. rewrite fin_kb in Hb. destruct (existsb (N.eqb k) D') eqn:E; [destruct Hb|].
+        split; [eauto|]. intros Hr. apply fin_rem_iff in Hr. destruct Hr as [d [Hd Hb']].
+        apply (kb_spec p Hinv) in Hb, Hb'. apply existsb_eqb_nIn in E. destruct Hb, Hb'. congruence.
+      - intros [[k Hb] Hn]. exists k. rewrite fin_kb. destruct (existsb (N.eqb k) D') eqn:E; auto.
+        exfalso. apply Hn. apply fin_rem_iff. exists k. split; auto. now apply existsb_eqb_In.
+    Qed.
+
+    Lemma fin_pa_lookup h : lk h pa = if existsb (N.eqb h) (map b_id rem) then None else lk h (parents p).
+    Proof. apply (b5 _ _ _ _ _ _ _ F). Qed.
+
+    (* a removed block's parent was popped; a kept block's parent was not *)
+    Lemma fin_removed_parent h k : lk h (parents p) = Some k -> (In h (map b_id rem) <-> In k D').
+    Proof.
+      intros Hl. split.
+      - intros Hh. apply in_map_iff in Hh. destruct Hh as [b [<- Hb]].
+        apply fin_rem_iff in Hb. destruct Hb as [d [Hd Hb]]. apply (kb_spec p Hinv) in Hb.
+        destruct Hb. congruence.
+      - intros Hk. apply in_map_iff. exists (the_blk h). split; [reflexivity|].
+        apply fin_rem_iff. exists k. split; auto. apply (kb_spec p Hinv). cbn. auto.
+    Qed.
+
+    Lemma fin_inv : inv (mkPool bl pa (sremove N.eqb ph (leaders p))).
+    Proof.
+      split; cbn [blocks parents leaders].
+      - intros k ch Hk. rewrite (b4 _ _ _ _ _ _ _ F) in Hk.
+        destruct (existsb (N.eqb k) D') eqn:E; [discriminate|]. apply existsb_eqb_nIn in E.
+        destruct (iA _ Hinv _ _ Hk) as (H1 & H2 & Hel). repeat split; auto; try apply (Hel _ _ H).
+        destruct (Hel _ _ H) as (_ & _ & Hl). rewrite fin_pa_lookup.
+        destruct (existsb (N.eqb h) (map b_id rem)) eqn:E2; auto.
+        apply existsb_eqb_In in E2. apply (fin_removed_parent _ _ Hl) in E2. tauto.
+      - intros h k Hl. rewrite fin_pa_lookup in Hl.
+        destruct (existsb (N.eqb h) (map b_id rem)) eqn:E2; [discriminate|]. apply existsb_eqb_nIn in E2.
+        destruct (iB _ Hinv _ _ Hl) as (Hp & ch & Hc & Hin). split; auto. exists ch. split; auto.
+        rewrite (b4 _ _ _ _ _ _ _ F). destruct (existsb (N.eqb k) D') eqn:E; auto.
+        apply existsb_eqb_In in E. apply (fin_removed_parent _ _ Hl) in E. tauto.
+      - intros l. rewrite (In_sremove N.eqb eqs), (iC _ Hinv). split.
+        + intros [[[h Hh] Hl] Hn]. split.
+          * exists h. rewrite fin_pa_lookup. destruct (existsb (N.eqb h) (map b_id rem)) eqn:E2; auto.
+            apply existsb_eqb_In in E2. apply (fin_removed_parent _ _ Hh) in E2.
+            destruct E2 as [->|E2]; [congruence|].
+            apply in_map_iff in E2. destruct E2 as [b [<- Hb]].
+            apply fin_rem_iff in Hb. destruct Hb as [d [_ Hb]]. apply (kb_spec p Hinv) in Hb. destruct Hb. congruence.
+          * rewrite fin_pa_lookup. destruct (existsb (N.eqb l) (map b_id rem)); auto.
+        + intros [[h Hh] Hl]. rewrite fin_pa_lookup in Hh.
+          destruct (existsb (N.eqb h) (map b_id rem)) eqn:E2; [discriminate|]. apply existsb_eqb_nIn in E2.
+          assert (~ In l D') as HlD.
+          { intros X. apply E2. now apply (fin_removed_parent _ _ Hh). }
+          rewrite fin_pa_lookup in Hl.
+          destruct (existsb (N.eqb l) (map b_id rem)) eqn:E3.
+          * apply existsb_eqb_In in E3. exfalso. apply HlD. now right.
+          * repeat split; eauto. intros ->. apply HlD. now left.
+      - repeat split; try apply (b7 _ _ _ _ _ _ _ F). apply (NoDup_sremove N.eqb), (iD _ Hinv).
+    Qed.
+  End Final.
+
+  Lemma remove_leader p ph : inv p -> In ph (leaders p) ->
+    exists bl pa rem,
+      remove_blocks_by_parent p ph = (mkPool bl pa (sremove N.eqb ph (leaders p)), rem)
+      /\ binv p ph (ph :: map b_id rem) [] bl pa rem.
+  Proof.
+    intros Hinv Hl. unfold remove_blocks_by_parent.
+    rewrite (proj2 (smem_In N.eqb eqs ph (leaders p)) Hl).
+    assert (Hph : lk ph (parents p) = None) by (apply (iC _ Hinv) in Hl; tauto).
+    destruct (bfs_final p Hinv ph Hph (S (S (length (parents p)))) [] [ph] (blocks p) (parents p) [])
+      as [D' HD]; [apply binv_init; auto|cbn; lia|].
+    destruct (bfs _ _ _ _ _) as [[bl pa] rem]. exists bl, pa, rem. split; [reflexivity|].
+    pose proof (b1 _ _ _ _ _ _ _ HD) as E. rewrite app_nil_r in E. now rewrite <- E.
+  Qed.
+
+  Theorem remove_spec p ph p' out : inv p -> remove_blocks_by_parent p ph = (p', out) ->
+    inv p' /\
+    (forall b, In b (stored p') <-> In b (stored p) /\ ~ In b out) /\
+    ((exists b, In b (stored p) /\ b_id b = ph) -> out = [] /\ p' = p) /\
+    (~ (exists b, In b (stored p) /\ b_id b = ph) ->
+       (forall b, In b out <-> descends (stored p) ph b) /\ NoDup out /\ parents_first ph out).
+  Proof.
+    intros Hinv Hr.
+    destruct (smem N.eqb ph (leaders p)) eqn:Es.
+    - apply (smem_In N.eqb eqs) in Es.
+      destruct (remove_leader p ph Hinv Es) as (bl & pa & rem & E & F). rewrite E in Hr. injection Hr as <- <-.
+      assert (Hph : lk ph (parents p) = None) by (apply (iC _ Hinv) in Es; tauto).
+      split; [now apply (fin_inv p ph bl pa rem)|]. split; [now apply (fin_stored p ph bl pa rem)|]. split.
+      + intros [b [Hb Hid]]. apply (stored_char _ _ Hinv) in Hb. rewrite Hid in Hb. destruct Hb. congruence.
+      + intros _. split; [intros b; now apply (fin_descends p ph bl pa rem)|].
+        split; [now apply (fin_nodup p ph bl pa rem)|apply (b6 _ _ _ _ _ _ _ F)].
+    - unfold remove_blocks_by_parent in Hr. rewrite Es in Hr. injection Hr as <- <-.
+      split; auto. split; [intros b; tauto|]. split; [auto|].
+      intros Hn. split; [|split; [constructor|intros r1 b r2 E; destruct r1; discriminate]].
+      intros b. split; [intros []|]. intros Hd. exfalso.
+      destruct (descends_child _ _ _ Hd) as [c [Hc Hp]].
+      apply (stored_char _ _ Hinv) in Hc. destruct Hc as [Hl _]. rewrite Hp in Hl.
+      assert (In ph (leaders p)) as X.
+      { apply (iC _ Hinv). split; eauto.
+        destruct (lk ph (parents p)) as [x|] eqn:E; auto. exfalso. apply Hn.
+        exists (the_blk ph). split; [|reflexivity]. apply (stored_char _ _ Hinv). cbn.
+        destruct (iB _ Hinv _ _ E) as [-> _]. auto. }
+      apply (smem_In N.eqb eqs) in X. congruence.
+  Qed.
+
+  Lemma descends_mono S S' ph b : (forall x, In x S -> In x S') -> descends S ph b -> descends S' ph b.
+  Proof. intros Hs. induction 1; [apply DChild|eapply DStep]; eauto. Qed.
+
+  (* clean_expired_blocks: a fold of releases over the leaders *)
+  Lemma clean_spec p t p' out : inv p -> clean_expired_blocks p t = (p', out) ->
+    inv p' /\
+    (forall b, In b (stored p') <-> In b (stored p) /\ ~ In b out) /\
+    (forall b, In b out -> exists l, In l (leaders p) /\ descends (stored p) l b).
+  Proof.
+    intros Hinv. unfold clean_expired_blocks.
+    set (f := fun (st : pool * list blk) l => if need_clean (fst st) l t then
+                 match remove_blocks_by_parent (fst st) l with (p', r) => (p', snd st ++ r) end else st).
+    assert (G : forall ls st, incl ls (leaders p) ->
+               (inv (fst st) /\
+                (forall b, In b (stored (fst st)) <-> In b (stored p) /\ ~ In b (snd st)) /\
+                (forall b, In b (snd st) -> exists l, In l (leaders p) /\ descends (stored p) l b)) ->
+               let st' := fold_left f ls st in
+               inv (fst st') /\
+               (forall b, In b (stored (fst st')) <-> In b (stored p) /\ ~ In b (snd st')) /\
+               (forall b, In b (snd st') -> exists l, In l (leaders p) /\ descends (stored p) l b)).
+    { induction ls as [|l ls IH]; intros st Hls J; [exact J|].
+      cbn. apply IH; [intros x Hx; apply Hls; now right|].
+      destruct J as (J1 & J2 & J3). unfold f. cbv beta. destruct (need_clean (fst st) l t); [|auto].
+      destruct (remove_blocks_by_parent (fst st) l) as [p1 r] eqn:Er.
+      destruct (remove_spec _ _ _ _ J1 Er) as (R1 & R2 & R3 & R4). cbn [fst snd].
+      split; [exact R1|]. split.
+      - intros b. rewrite R2, J2, in_app_iff. tauto.
+      - intros b Hb. apply in_app_iff in Hb. destruct Hb as [Hb|Hb]; [auto|].
+        exists l. split; [apply Hls; now left|].
+        assert (X : ~ (exists b0, In b0 (stored (fst st)) /\ b_id b0 = l)).
+        { intros Hx. destruct (R3 Hx) as [-> _]. destruct Hb. }
+        destruct (R4 X) as (R5 & _). apply R5 in Hb.
+        eapply descends_mono; [|exact Hb]. intros x Hx. apply J2 in Hx. tauto. }
+    intros E. specialize (G (leaders p) (p, []) (fun x H => H)).
+    cbv zeta in G. fold f in E. rewrite E in G. cbn [fst snd] in G. apply G.
+    split; auto. split; [intros b; cbn; tauto|intros b []].
+  Qed.
+
+  Lemma op_ok_blk b : op_ok par ep (OInsert b) -> b = the_blk (b_id b).
+  Proof. destruct b; cbn. intros [-> ->]. reflexivity. Qed.
+
+  Lemma ostep_inv p o : inv p -> op_ok par ep o -> inv (fst (ostep p o)).
+  Proof.
+    intros Hinv Hok. destruct o as [b|ph|t]; cbn [ostep].
+    - apply insert_inv; auto. now apply op_ok_blk.
+    - destruct (remove_blocks_by_parent p ph) as [p' out] eqn:E. apply (remove_spec _ _ _ _ Hinv E).
+    - destruct (clean_expired_blocks p t) as [p' out] eqn:E. apply (clean_spec _ _ _ _ Hinv E).
+  Qed.
+
+  Lemma orun_inv ops : forall p, inv p -> Forall (op_ok par ep) ops -> inv (orun p ops).
+  Proof.
+    induction ops as [|o ops IH]; intros p Hinv Hok; [exact Hinv|].
+    inversion Hok; subst. cbn. apply IH; auto. now apply ostep_inv.
+  Qed.
+
+  Lemma insert_stored p b : inv p -> b = the_blk (b_id b) ->
+    forall x, In x (stored (insert p b)) <-> x = b \/ In x (stored p).
+  Proof.
+    intros Hinv Hb x. rewrite (stored_char _ _ (insert_inv _ _ Hinv Hb)), (stored_char _ _ Hinv).
+    cbn [insert parents]. rewrite (alookup_ainsert N.eqb eqs). destruct (eqs (b_id b) (b_id x)) as [E|E].
+    - split.
+      + intros [_ Hx]. left. rewrite Hx, Hb, <- E. reflexivity.
+      + intros [->|[Hl Hx]]; [split; [reflexivity|exact Hb]|].
+        split; [|exact Hx]. f_equal. rewrite Hx, Hb, E. reflexivity.
+    - split; [tauto|]. intros [->|H]; [congruence|exact H].
+  Qed.
+
+  Lemma leaders_exact p : inv p ->
+    NoDup (leaders p) /\
+    forall l, In l (leaders p) <->
+      (exists b, In b (stored p) /\ b_parent b = l) /\ ~ (exists b, In b (stored p) /\ b_id b = l).
+  Proof.
+    intros Hinv. split; [apply (iD _ Hinv)|]. intros l. rewrite (iC _ Hinv). split.
+    - intros [[h Hh] Hl]. split.
+      + exists (the_blk h). split; [|cbn; apply (iB _ Hinv _ _ Hh)].
+        apply (stored_char _ _ Hinv). cbn. split; auto. destruct (iB _ Hinv _ _ Hh) as [-> _]. exact Hh.
+      + intros [b [Hb Hid]]. apply (stored_char _ _ Hinv) in Hb. rewrite Hid in Hb. destruct Hb. congruence.
+    - intros [[b [Hb Hp]] Hn]. apply (stored_char _ _ Hinv) in Hb. split.
+      + exists (b_id b). rewrite <- Hp. tauto.
+      + destruct (lk l (parents p)) as [x|] eqn:E; auto. exfalso. apply Hn.
+        exists (the_blk l). split; [|reflexivity]. apply (stored_char _ _ Hinv). cbn.
+        destruct (iB _ Hinv _ _ E) as [-> _]. auto.
+  Qed.
 End Inv.
+
+(* ---- the statements over all operation sequences --------------------------- *)
+Theorem orphan_refines : forall par ep ops,
+  (forall x, par x <> x) -> Forall (op_ok par ep) ops ->
+  let p := orun empty_pool ops in
+  (* insert adds exactly the block *)
+  (forall b, op_ok par ep (OInsert b) -> forall x, In x (stored (insert p b)) <-> x = b \/ In x (stored p)) /\
+  (* release *)
+  (forall ph p' out, remove_blocks_by_parent p ph = (p', out) ->
+     (forall b, In b (stored p') <-> In b (stored p) /\ ~ In b out) /\
+     ((exists b, In b (stored p) /\ b_id b = ph) -> out = [] /\ p' = p) /\
+     (~ (exists b, In b (stored p) /\ b_id b = ph) ->
+        (forall b, In b out <-> descends (stored p) ph b) /\ NoDup out /\ parents_first ph out)) /\
+  (* expiry releases whole trees below leaders and keeps the rest *)
+  (forall t p' out, clean_expired_blocks p t = (p', out) ->
+     (forall b, In b (stored p') <-> In b (stored p) /\ ~ In b out) /\
+     (forall b, In b out -> exists l, In l (leaders p) /\ descends (stored p) l b)).
+Proof.
+  intros par ep ops Hpar Hok p.
+  assert (Hinv : inv par ep p) by (apply orun_inv; auto; apply inv_empty).
+  split; [|split].
+  - intros b Hb. apply (insert_stored par ep Hpar); auto. now apply op_ok_blk.
+  - intros ph p' out E. destruct (remove_spec par ep _ _ _ _ Hinv E) as [_ H]. exact H.
+  - intros t p' out E. destruct (clean_spec par ep _ _ _ _ Hinv E) as [_ H]. exact H.
+Qed.
+
+Theorem orphan_leaders_exact : forall par ep ops,
+  (forall x, par x <> x) -> Forall (op_ok par ep) ops ->
+  let p := orun empty_pool ops in
+  NoDup (leaders p) /\
+  forall l, In l (leaders p) <->
+    (exists b, In b (stored p) /\ b_parent b = l) /\ ~ (exists b, In b (stored p) /\ b_id b = l).
+Proof.
+  intros par ep ops Hpar Hok p. apply (leaders_exact par ep). apply orun_inv; auto. apply inv_empty.
+Qed.
+
+(* non-vacuity: a concrete history satisfying the hypotheses; the release of
+   parent 1 returns the chain 2 <- 3 (parent first) and keeps 5 and 8 *)
+Definition ex_par (x : N) : N := if N.eqb x 0 then 1000%N else (x - 1)%N.
+Definition ex_ep (_ : N) : N := 0%N.
+Definition ex_ops : list oop :=
+  [OInsert (mkBlk 3 2 0); OInsert (mkBlk 5 4 0); OInsert (mkBlk 2 1 0); OInsert (mkBlk 8 7 0); OInsert (mkBlk 3 2 0)].
+Lemma ex_par_irrefl : forall x, ex_par x <> x.
+Proof. intros x. unfold ex_par. destruct (N.eqb_spec x 0); lia. Qed.
+Example orphan_example :
+  Forall (op_ok ex_par ex_ep) ex_ops /\
+  leaders (orun empty_pool ex_ops) = [7; 1; 4]%N /\
+  snd (remove_blocks_by_parent (orun empty_pool ex_ops) 1) = [mkBlk 2 1 0; mkBlk 3 2 0] /\
+  stored (fst (remove_blocks_by_parent (orun empty_pool ex_ops) 1)) = [mkBlk 8 7 0; mkBlk 5 4 0].
+Proof. split; [repeat constructor|vm_compute; auto]. Qed.
